@@ -49,6 +49,22 @@ def norm_guard(g):
 
 
 def run(chk, repo):
+    # the control law is made of signed comparisons and loads of the
+    # terminal's variables: the lowering rules those rest on are necessary
+    # conditions here as well (shared with C03, C01, C19)
+    from . import c03, c01, c19
+    from ..dsl import Ctx as _Dsl
+    chk.doc("R03.1", "comparison lowering (shared with C03)")
+    chk.doc("R03.6", "operand widths of signed comparisons (shared with C03)")
+    chk.doc("R01.3", "signedness of operands (shared with C01)")
+    chk.doc("R19.1", "process variables keep their declared format on the "
+                     "program path (shared with C19)")
+    _d = _Dsl(repo)
+    c03.simple_compare(chk, repo, _d)
+    c03.operand_widths(chk, repo)
+    c01.r2_algebra(chk, repo, _d)
+    c19.start(chk, repo)
+    c19.widths(chk, repo)
     chk.doc("R26.1", "clamp facts along the DSL program")
     chk.doc("R26.2", "signed 64-bit temporary; signed velocity outputs")
     sym = M + ".program"
